@@ -83,8 +83,10 @@ def run_node(case):  # noqa: C901
     n += 1
     # single-field mutants, at depth 0, 1, 2
     ms, cannot = nodepool.mutants(node)
+    mutated_fields = {f for f, _d, _m, _e in ms}
     for f, why in cannot:
-        V("field-without-mutation", f"field {f}: {why}", field=f)
+        if f not in mutated_fields:     # (an alternative the constructor refuses is fine as long as the field has others)
+            V("field-without-mutation", f"field {f}: {why}", field=f)
     ctxs = nodepool.contexts()
     for f, d, m, eq_expected in ms:
         n += 1
